@@ -176,7 +176,7 @@ func (c *Ctx) Broken(format string, a ...any) {
 func (c *Ctx) finish() {
 	c.ev.WallS = time.Since(c.Start).Seconds()
 	c.ev.Violations = len(c.viol)
-	var kf []string
+	kf := []string{}
 	for _, f := range c.Known {
 		if f.Open() && c.Observed[f.ID] {
 			kf = append(kf, f.ID)
